@@ -391,7 +391,14 @@ FieldChoices(b, c, n) ==
                        : cd \in Cards }
         refs == UNION { { [e |-> Plain(nm, WithCard(r, cd)), rich |-> 1,
                            label |-> "ref-" \o rk \o (IF r.pkg = b.pkgs[pi].name THEN (IF r.qual = "" THEN "/local" ELSE "/self-qualified") ELSE "/import-as-" \o r.qual) \o "/" \o r.form \o "/" \o cd]
-                         : r \in RefTargets(b, pi, fl, rk), cd \in (IF full THEN Cards ELSE {"single"}) }
+                         \* arrays and maps of a type of ANOTHER package too: the item type is what brings the import in
+                         : r \in RefTargets(b, pi, fl, rk),
+                           cd \in { x \in Cards : x = "single" \/ full } }
+                       \cup
+                       { [e |-> Plain(nm, WithCard(r, cd)), rich |-> 1,
+                           label |-> "ref-" \o rk \o "/import-as-" \o r.qual \o "/" \o r.form \o "/" \o cd]
+                         : r \in { x \in RefTargets(b, pi, fl, rk) : Breadth = "full" /\ x.pkg # b.pkgs[pi].name /\ x.qual = x.pkg },
+                           cd \in {"array", "map"} }
                       : rk \in {"object", "oneof", "enum"} }
         names == IF ~full THEN {} ELSE
                  { [e |-> Plain(ft[1], ft[2][1]), rich |-> 1, label |-> "name-" \o ft[1].src \o "/" \o ft[2][2]]
